@@ -259,9 +259,10 @@ def has_space_char(e):
 
 INVALID = ['[', '[]', '[a', 'a)', '(a', 'a**', '*a', '+', '?a', '[z-a]', 'a{2,1}', 'a{', 'a{,2}', '(?i)a', '(?=a)', r'\p{Foo}', r'\p{L', r'\pL',
            '[a--b]', r'\q', r'\e', r'[\q]', '[a-z-[]', '[[a]]', 'a{1}{2}', 'a|*', '(*)', r'[^]', ']', 'a]', r'\P{IsNoSuchBlock}', r'\b', r'\A', r'\Z',
-           r'[a-\d]', '{1}', 'a{x}', r'\1', r'(a)\2']
+           r'[a-\d]', '{1}', 'a{x}', r'\1', r'(a)\2', 'a|{2}', '(+a)', '(a)|?', r'[a\e]', r'[^\q]', r'[a-z-[\q]]', r'\0', 'a{3,2}?', r'(a)\3',
+           r'(a)(b)\3', 'a{2,1}b', r'\y', r'[\y]']
 VALID = ['', 'a|', '|a', '()', 'a{0}', 'a{2,}', '[-a]', '[a-]', r'[\-]', '[a-z-[aeiou]]', r'\p{IsGreek}', r'[^\d\s]', 'a{1,2}?', 'a*?', 'a+?', 'a??', '(a)|b', r'[\^a]',
-         r'\.', r'\\', r'\|', '^a$', r'(a)\1', r'[\p{L}-[\p{Lu}]]', '.', r'\n', r'\t', '[+]', '[*?]', r'\-', 'a-b']
+         r'\.', r'\\', r'\|', '^a$', r'(a)\1', '(?:a)+', r'[\$]', r'\$', r'(a)(b)\2\1', 'a{0,0}', '(|a)', 'a||b', 'a{2,2}', r'[\\\$]', r'[\p{L}-[\p{Lu}]]', '.', r'\n', r'\t', '[+]', '[*?]', r'\-', 'a-b']
 
 
 def run(chk):
@@ -310,7 +311,9 @@ def run(chk):
                 ('cls', False, [('esc', r'\d'), ('esc', r'\D')], None), ('cls', True, [('esc', r'\d'), ('esc', r'\D')], None),
                 ('cls', False, [('ch', 0x2d), ('esc', r'\w')], None), ('cls', False, [('ch', 0x2d), ('esc', r'\d'), ('rg', 0x5a, 0x62)], None),
                 ('cls', True, [('ch', 0x61), ('ch', 0x2d), ('esc', r'\S')], None), ('cls', False, [('ch', 0x5e), ('esc', r'\p{L}')], None),
-                ('cls', False, [('ch', 0x2e), ('esc', r'\D')], ('cls', False, [('ch', 0x2d), ('esc', r'\s')], None))]
+                ('cls', False, [('ch', 0x2e), ('esc', r'\D')], ('cls', False, [('ch', 0x2d), ('esc', r'\s')], None)),
+                ('cls', False, [('ch', 0x24)], None), ('cls', False, [('ch', 0x61), ('ch', 0x24), ('ch', 0x62)], None),
+                ('cls', True, [('ch', 0x24), ('esc', r'\d')], None), ('cls', False, [('ch', 0x5c), ('ch', 0x24)], None)]
     # systematic small classes: every base of <= 2 parts over {5, a, \d, \D, \S}, negated or not, with every subtrahend
     import itertools
     atoms = [('ch', 0x35), ('ch', 0x61), ('esc', r'\d'), ('esc', r'\D'), ('esc', r'\S')]
@@ -321,7 +324,7 @@ def run(chk):
         for ng in (False, True):
             for sb in subs:
                 classes.append(('cls', ng, base, sb))
-    probe = ALPHA + [0x31, 0x42, 0x3c3, 0x2028, 0x10000, 0x0]
+    probe = ALPHA + [0x31, 0x42, 0x3c3, 0x2028, 0x10000, 0x0, 0x5c]
     terms = [f'run_cls {cls_coq(c)} {core.zlist(probe)}' for c in classes]
     model = core.run_coq_cases('C12', IMPORTS, terms, chunk=6, tag='cls') if model_ok else [None] * len(classes)
     for c, mo in zip(classes, model):
@@ -541,8 +544,8 @@ def run(chk):
                             'detail': f'{len(chk.corr_fail)} disagreements' + (': ' + repr(chk.corr_fail[0])[:500] if chk.corr_fail else '')})
 
 
-ACCEPTED_INVALID = {r'[\q]'}
-DELEGATED_INVALID = {'a{2,1}', r'\q', r'\e', 'a{1}{2}', 'a|*', '(*)', r'\1', r'(a)\2'}
+ACCEPTED_INVALID = set()
+DELEGATED_INVALID = set()
 KNOWN_ACCEPTED = set()
 
 
